@@ -1,7 +1,9 @@
 #[inline]
 pub fn cautious<T>(hint: u32) -> usize {
-    let el_size = core::mem::size_of::<T>() as u32;
-    core::cmp::max(core::cmp::min(hint, 4096 / el_size), 1) as usize
+    // the element size must not be truncated: `size_of::<T>() as u32` is 0 for a size that is a
+    // multiple of 2^32 (division by zero) and tiny for a size just above one
+    let max_elems = (4096 / core::mem::size_of::<T>()) as u32;
+    core::cmp::max(core::cmp::min(hint, max_elems), 1) as usize
 }
 
 #[cfg(test)]
